@@ -133,6 +133,7 @@ def gen_cg(rng, nmax=6):
     return {
         "kind": "cg", "n": n, "cplx": cplx, "A": tolist(A), "M": None if M is None else tolist(M), "b": tolist(b),
         "x0": None if x0 is None else tolist(x0), "linop": linop, "tol": tol, "atol": atol, "maxiter": maxiter,
+        "info": bool(rng.integers(0, 6) != 0),
     }
 
 
@@ -167,11 +168,21 @@ def _impl_cg(case, record=True):
             return Mj @ r
 
     try:
-        x, info = solver.cg(Aop, b, x0, tol=case["tol"], atol=case["atol"], maxiter=case["maxiter"], M=Mf)
+        if case.get("info", True):
+            x, info = solver.cg(Aop, b, x0, tol=case["tol"], atol=case["atol"], maxiter=case["maxiter"], M=Mf)
+        else:  # info=False: the solution only; the diagnostics are recomputed from the recorded calls
+            x = solver.cg(Aop, b, x0, tol=case["tol"], atol=case["atol"], maxiter=case["maxiter"], M=Mf, info=False)
+            if isinstance(x, tuple):
+                return {"err": "other"}
+            info = None
     except Exception as e:  # noqa: BLE001
         return {"err": _err(e)}
-    return {"x": np.array(x), "num_iter": int(info["num_iter"]), "rel_res": float(info["rel_res"]), "p": rec_p, "r": rec_r,
-            "A": A, "M": M, "b": np.array(b), "x0": None if x0 is None else np.array(x0)}
+    out = {"x": np.array(x), "p": rec_p, "r": rec_r, "A": A, "M": M, "b": np.array(b), "x0": None if x0 is None else np.array(x0)}
+    if info is None:
+        out.update(num_iter=len(rec_p) - 1, rel_res=None)
+    else:
+        out.update(num_iter=int(info["num_iter"]), rel_res=float(info["rel_res"]))
+    return out
 
 
 def _model_cg(model, case):
@@ -188,6 +199,17 @@ def _model_cg(model, case):
     tr = [{"x": dec(s["x"], cplx), "r": dec(s["r"], cplx), "p": dec(s["p"], cplx), "num": dec(s["num"], cplx)[0], "ii": s["ii"]}
           for s in r["trace"]]
     return {"x": dec(r["x"], cplx), "num_iter": r["num_iter"], "rel_res": b2f(r["rel_res"]), "tolsq": b2f(r["tolsq"]), "trace": tr}
+
+
+def _errA_increased(A, b, x0, x, cond):
+    """theorem C14_cg_error_decreases: for HPD A (Hermitian M) no executed step increases the A-norm of the error"""
+    xs = np.linalg.solve(A, b)
+    x0 = np.zeros_like(xs) if x0 is None else x0
+    eA = lambda v: float(np.real(np.vdot(xs - v, A @ (xs - v))))  # noqa: E731
+    e0, e1 = eA(x0), eA(x)
+    if e1 > e0 * (1 + 1e-9) + 1e-20 * cond * (1.0 + float(np.real(np.vdot(b, b)))):
+        return {"A_norm_error_sq_at_x0": e0, "A_norm_error_sq_at_returned_x": e1, "x": tolist(x)}
+    return None
 
 
 def oracle_cg(case):
@@ -208,11 +230,14 @@ def oracle_cg(case):
     eps = 1e-10 * cond * (1.0 + bn)
     if not np.all(np.isfinite(x)):
         return {"x_not_finite": tolist(x)}
+    bad = _errA_increased(A, b, im["x0"], x, cond)
+    if bad:
+        return bad
     if im["num_iter"] < case["maxiter"] and math.sqrt(max(num, 0.0)) > thr + eps:
         return {"stopped_early": True, "num_iter": im["num_iter"], "true_sqrt_num": math.sqrt(max(num, 0.0)), "threshold": thr}
     if im["num_iter"] > case["maxiter"]:
         return {"num_iter": im["num_iter"], "maxiter": case["maxiter"]}
-    if bn > 0:
+    if bn > 0 and im["rel_res"] is not None:
         true_rel = math.sqrt(max(num, 0.0)) / bn
         if not (abs(true_rel - im["rel_res"]) <= eps / bn):
             return {"reported_rel_res": im["rel_res"], "true_rel_res": true_rel, "x": tolist(x)}
@@ -227,6 +252,7 @@ def run_cg(ctx, model, case):
     ctx.count("cg:complex" if case["cplx"] else "cg:real")
     ctx.count("cg:M=" + ("none" if case["M"] is None else "given"))
     ctx.count("cg:x0=" + ("none" if case["x0"] is None else "given"))
+    ctx.count("cg:info=" + str(case.get("info", True)))
     if "err" in im or "err" in mo:
         ctx.case({"kind": "cg", "n": n, "err": im.get("err")}, None)
         ctx.count(f"cg:err:{im.get('err')}")
@@ -263,7 +289,7 @@ def run_cg(ctx, model, case):
         bad = ("num_iter", im["num_iter"], K)
     elif not vclose(im["x"], mo["x"], k):
         bad = ("x", tolist(im["x"]), tolist(mo["x"]))
-    elif not common.close(im["rel_res"], mo["rel_res"], k) and not (
+    elif im["rel_res"] is not None and not common.close(im["rel_res"], mo["rel_res"], k) and not (
         # b = 0: the quotient is 0/0 (NaN) or x/0 (inf) depending on whether the final num is exactly zero or at rounding
         # level - both mean "undefined" (design/C14.md); they are only required to be non-finite on both sides
         not np.any(bv) and not math.isfinite(im["rel_res"]) and not math.isfinite(mo["rel_res"])
@@ -288,6 +314,126 @@ def run_cg(ctx, model, case):
                         break
     if bad:
         ctx.disagree("linsolve.cg." + bad[0], case, bad[1], bad[2], oracle=oracle_cg)
+
+
+# =============================================================================================
+# jax.scipy.sparse.linalg.cg - the back end of LinearSubproblemSolver(cg_function="jax") (contract model `jaxCg`)
+
+
+def gen_jaxcg(rng, nmax=6):
+    case = gen_cg(rng, nmax)
+    case["kind"] = "jaxcg"
+    case.pop("linop", None)
+    case.pop("info", None)
+    return case
+
+
+def _impl_jaxcg(case, record=True):
+    S = _setup()
+    jax, jnp = S["jax"], S["jnp"]
+    from jax.scipy.sparse.linalg import cg as jax_cg
+
+    n, cplx = case["n"], case["cplx"]
+    dt = np.complex128 if cplx else np.float64
+    A = _arr(case["A"], cplx, (n, n))
+    M = _arr(case["M"], cplx, (n, n))
+    b = jnp.array(_arr(case["b"], cplx), dtype=dt)
+    x0 = None if case["x0"] is None else jnp.array(_arr(case["x0"], cplx), dtype=dt)
+    Aj = jnp.array(A, dtype=dt)
+    rec_p = []
+
+    def Af(x):  # traced by custom_linear_solve: record through an ordered callback
+        if record:
+            jax.debug.callback(lambda v: rec_p.append(np.array(v)), x, ordered=True)
+        return Aj @ x
+
+    Mf = None
+    if M is not None:
+        Mj = jnp.array(M, dtype=dt)
+        Mf = lambda r: Mj @ r  # noqa: E731
+    try:
+        x, info = jax_cg(Af, b, x0, tol=case["tol"], atol=case["atol"], maxiter=case["maxiter"], M=Mf)
+        x = np.array(x)
+        jax.effects_barrier()
+    except Exception as e:  # noqa: BLE001
+        return {"err": _err(e)}
+    return {"x": x, "info": info, "p": rec_p, "A": A, "M": M, "b": np.array(b), "x0": None if x0 is None else np.array(x0)}
+
+
+def oracle_jaxcg(case):
+    """theorem C14_jaxcg_exit on the implementation: fewer than maxiter bodies => the TRUE residual meets the rule"""
+    im = _impl_jaxcg(case)
+    if "err" in im:
+        return {"unexpected_error": im["err"]}
+    A, b, x = im["A"], im["b"], im["x"]
+    if not np.all(np.isfinite(x)):
+        if not np.any(b):
+            return None
+        return {"x_not_finite": tolist(x)}
+    cond = float(np.linalg.cond(A)) * (1.0 if im["M"] is None else float(np.linalg.cond(im["M"])))
+    bad = _errA_increased(A, b, im["x0"], x, cond)
+    if bad:
+        return bad
+    bn = float(np.linalg.norm(b))
+    res = float(np.linalg.norm(b - A @ x))
+    thr = max(case["tol"] * bn, case["atol"])
+    iters = len(im["p"]) - 1
+    if iters < case["maxiter"] and res > thr + 1e-10 * cond * (1.0 + bn):
+        return {"stopped_early": True, "iterations": iters, "true_residual": res, "threshold": thr, "x": tolist(x)}
+    if iters > case["maxiter"]:
+        return {"iterations": iters, "maxiter": case["maxiter"]}
+    return None
+
+
+def run_jaxcg(ctx, model, case):
+    n, cplx = case["n"], case["cplx"]
+    im = _impl_jaxcg(case)
+    ctx.count(f"jaxcg:n={n}")
+    ctx.count("jaxcg:complex" if cplx else "jaxcg:real")
+    ctx.count("jaxcg:M=" + ("none" if case["M"] is None else "given"))
+    ctx.count("jaxcg:x0=" + ("none" if case["x0"] is None else "given"))
+    if "err" in im:
+        ctx.case({"kind": "jaxcg", "n": n, "err": im["err"]}, None)
+        ctx.disagree("linsolve.jaxcg.error", case, im["err"], "ok", oracle=oracle_jaxcg)
+        return
+    r = model.call("jaxcg", dt="c" if cplx else "r", n=n, A=enc(_arr(case["A"], cplx), cplx),
+                   M=None if case["M"] is None else enc(_arr(case["M"], cplx), cplx), b=enc(_arr(case["b"], cplx), cplx),
+                   x0=None if case["x0"] is None else enc(_arr(case["x0"], cplx), cplx),
+                   tol=f2b(case["tol"]), atol=f2b(case["atol"]), maxiter=case["maxiter"])
+    trace = [{"p": dec(t["p"], cplx), "rs": b2f(t["rs"]), "k": t["k"]} for t in r["trace"]]
+    atol2 = b2f(r["atol2"])
+    bv = _arr(case["b"], cplx)
+    x0v = None if case["x0"] is None else _arr(case["x0"], cplx)
+    Av = _arr(case["A"], cplx, (n, n))
+    scale = 1.0 + float(np.linalg.norm(bv)) ** 2 + (0.0 if x0v is None else float(np.linalg.norm(Av @ x0v)) ** 2)
+    structural_zero = not np.any(bv) and (x0v is None or not np.any(x0v))
+    for t in trace:
+        if t["k"] < case["maxiter"]:
+            marg = abs(t["rs"] - atol2) / max(abs(atol2), 1e-300)
+            rounding_level = abs(t["rs"] - atol2) <= 1e-22 * scale
+            if (t["rs"] != atol2 and marg < 1e-6) or (rounding_level and not structural_zero):
+                ctx.count("jaxcg:discard-near-tie")
+                return
+    K = r["k"]
+    ctx.count(f"jaxcg:iters={min(K, 9)}")
+    ctx.count("jaxcg:exit=" + ("maxiter" if K == case["maxiter"] else "tolerance"))
+    ctx.case({"kind": "jaxcg", "n": n, "cplx": cplx, "iters": K, "maxiter": case["maxiter"]}, _key(case) if K >= 1 else None)
+    k = n * (K + 2) * 10
+    bad = None
+    mx = dec(r["x"], cplx)
+    if im["info"] is not None:
+        bad = ("info", repr(im["info"]), None)
+    elif len(im["p"]) != K + 1:
+        bad = ("calls_of_A", len(im["p"]), K + 1)
+    elif not vclose(im["x"], mx, k):
+        bad = ("x", tolist(im["x"]), tolist(mx))
+    else:
+        for j in range(K):
+            if not vclose(im["p"][j + 1], trace[j]["p"], k):
+                bad = (f"p_{j}", tolist(im["p"][j + 1]), tolist(trace[j]["p"]))
+                break
+    if bad:
+        ctx.disagree("linsolve.jaxcg." + bad[0], case, bad[1], bad[2], oracle=oracle_jaxcg)
 
 
 # =============================================================================================
@@ -339,6 +485,10 @@ def oracle_cgscan(case):
     x, A, b = im["x"], im["A"], im["b"]
     if not np.all(np.isfinite(x)):
         return {"x_not_finite": True, "A": case["A"], "b": case["b"], "maxiter": case["maxiter"]}
+    x0 = None if case["x0"] is None else _arr(case["x0"], case["cplx"])
+    bad = _errA_increased(A, b, x0, x, float(np.linalg.cond(A)))
+    if bad:
+        return bad
     if case["maxiter"] >= case["n"]:
         res = float(np.linalg.norm(b - A @ x))
         if res > 1e-7 * np.linalg.cond(A) * (1 + float(np.linalg.norm(b))):
@@ -974,6 +1124,9 @@ def gen_golden(rng):
         b.append(mn + w2)
         c.append(mn - w1 + 0.25 * (w1 + w2))
     usec = bool(rng.integers(0, 4) == 0)
+    if usec and rng.integers(0, 2) == 0:
+        # anywhere inside (a, b), as documented ("c must be within that interval"): eighths of the bracket
+        c = [lo + float(rng.integers(1, 8)) / 8.0 * (hi - lo) for lo, hi in zip(a, b)]
     return {"kind": "golden", "n": n, "coef": coef, "a": a, "b": b, "c": c if usec else None, "xtol": float(rng.choice([1e-7, 1e-3, 0.25, 1e-12])),
             "maxiter": int(rng.choice([0, 1, 2, 5, 30, 60])), "full_output": bool(rng.integers(0, 2))}
 
@@ -1001,6 +1154,16 @@ def _impl_golden(case):
     return {"x": np.array(r), "calls": rec}
 
 
+_GR = 2 / (math.sqrt(5) + 1)
+
+
+def _golden_c_beyond_d(case):
+    """class of the recorded finding `golden-c-beyond-d`: a supplied first point c at or beyond d = a + gr (b - a)"""
+    if case.get("c") is None:
+        return False
+    return any(c >= a + _GR * (b - a) for a, b, c in zip(case["a"], case["b"], case["c"]))
+
+
 def oracle_golden(case):
     im = _impl_golden(case)
     if "err" in im:
@@ -1020,10 +1183,14 @@ def oracle_golden(case):
         if not rts:
             continue
         xs = min(rts, key=lambda t: _np_poly(case["coef"], i, t))
-        if case["c"] is None and case["full_output"]:
-            width = (hi - lo) * gr ** (im["iter"] + 1)
+        if case["full_output"]:
+            # theorems C14_golden / C14_golden_c_partial: distance to the minimiser <= width of the final bracket
+            if case["c"] is None:
+                width = (hi - lo) * gr ** (im["iter"] + 1)
+            else:
+                width = max(gr * (hi - lo), hi - case["c"][i]) * gr ** im["iter"]
             if abs(x[i] - xs) > width * (1 + 1e-6) + 1e-7:
-                return {"element": i, "x": float(x[i]), "minimiser": xs, "bracket_width_after_iter": width}
+                return {"element": i, "x": float(x[i]), "minimiser": xs, "bracket_width_after_iter": width, "c": None if case["c"] is None else case["c"][i]}
     return None
 
 
@@ -1031,7 +1198,8 @@ def run_golden(ctx, model, case):
     n = case["n"]
     im = _impl_golden(case)
     r = model.call("golden", n=n, coef=[common.fs2b(c) for c in case["coef"]], a=common.fs2b(case["a"]), b=common.fs2b(case["b"]),
-                   c=None if case["c"] is None else common.fs2b(case["c"]), xtol=f2b(case["xtol"]), maxiter=case["maxiter"])
+                   c=None if case["c"] is None else common.fs2b(case["c"]), xtol=f2b(case["xtol"]), maxiter=case["maxiter"],
+                   csort=not ctx.is_known("golden-c-beyond-d"))
     mo = {"x": np.array(common.b2fs(r["x"])), "steps": r["final"]["steps"], "xerr": b2f(r["final"]["xerr"]),
           "trace": [(np.array(common.b2fs(s["a"])), np.array(common.b2fs(s["b"])), np.array(common.b2fs(s["c"])), np.array(common.b2fs(s["d"])),
                      b2f(s["xerr"])) for s in r["trace"]]}
@@ -1080,14 +1248,14 @@ def run_golden(ctx, model, case):
 
 # =============================================================================================
 
-RUNNERS = {"cg": run_cg, "cgscan": run_cgscan, "lstsq": run_lstsq, "atad": run_atad, "conv": run_conv, "relres": run_relres,
+RUNNERS = {"cg": run_cg, "jaxcg": run_jaxcg, "cgscan": run_cgscan, "lstsq": run_lstsq, "atad": run_atad, "conv": run_conv, "relres": run_relres,
            "bisect": run_bisect, "golden": run_golden}
-GENS = {"cg": gen_cg, "cgscan": gen_cgscan, "lstsq": gen_lstsq, "atad": gen_atad, "conv": gen_conv, "relres": gen_relres,
+GENS = {"cg": gen_cg, "jaxcg": gen_jaxcg, "cgscan": gen_cgscan, "lstsq": gen_lstsq, "atad": gen_atad, "conv": gen_conv, "relres": gen_relres,
         "bisect": gen_bisect, "golden": gen_golden}
-ORACLES = {"cg": oracle_cg, "cgscan": oracle_cgscan, "lstsq": oracle_lstsq, "atad": oracle_atad, "conv": oracle_conv,
+ORACLES = {"cg": oracle_cg, "jaxcg": oracle_jaxcg, "cgscan": oracle_cgscan, "lstsq": oracle_lstsq, "atad": oracle_atad, "conv": oracle_conv,
            "bisect": oracle_bisect, "golden": oracle_golden}
 # (quick, thorough) number of generated cases per stream
-BUDGET = {"cg": (120, 1500), "cgscan": (25, 250), "lstsq": (30, 300), "atad": (90, 1000), "conv": (40, 400), "relres": (30, 200),
+BUDGET = {"cg": (120, 1500), "jaxcg": (40, 400), "cgscan": (25, 250), "lstsq": (30, 300), "atad": (90, 1000), "conv": (40, 400), "relres": (30, 200),
           "bisect": (60, 700), "golden": (50, 600)}
 
 
@@ -1108,10 +1276,21 @@ def correspond(ctx, model):
         for _ in range(ctx.n(q, t)):
             case = gen(ctx.rng)
             RUNNERS[kind](ctx, model, case)
+    if only:
+        # a restricted run is a debugging aid only: it can print VIOLATION lines but can never be reported as "held"
+        raise common.Infra(f"LINSOLVE_STREAMS={only} is set: restricted debugging run, not a valid check (unset it)")
+
+
+GOLDEN_C_WITNESS = {"kind": "golden", "n": 1, "coef": [[0.64, -1.6, 1.0]], "a": [0.0], "b": [1.0], "c": [0.875], "xtol": 1e-7, "maxiter": 60,
+                    "full_output": True}
 
 
 def findings(ctx, model):
-    pass  # no open finding for C14 (see the `fixed:` lines of known_findings.txt; their witnesses are corpus cases)
+    _setup()
+    if ctx.is_known("golden-c-beyond-d"):
+        r = oracle_golden(GOLDEN_C_WITNESS)
+        ctx.known_finding("golden-c-beyond-d", r is not None and "minimiser" in r,
+                          "" if r is None else f"golden(f, 0, 1, c=0.875) for f = (x - 0.8)^2 returns {r.get('x'):.6g}, minimiser {r.get('minimiser'):.6g}")
 
 
 def search(ctx, model, why):
@@ -1121,6 +1300,8 @@ def search(ctx, model, why):
         q, t = BUDGET[kind]
         for _ in range(max(10, ctx.n(q, t) // 4)):
             case = GENS[kind](ctx.rng)
+            if kind == "golden" and _golden_c_beyond_d(case) and ctx.is_known("golden-c-beyond-d"):
+                continue
             ctx.count(f"search:{kind}")
             r = orc(case)
             if r is not None:
